@@ -209,3 +209,11 @@ prop('C13',
      rule='feeder.FeedOnce against a scripted witness (recording stub, and the real witness behind the real witnessAdapter) for all (witness size, log size) in -1..N x 0..N (N=6 quick, 12 thorough), honest and forked log, all patterns of up to 2 (quick) / 4 (thorough) transient failures over get-latest / fetch-proof / update, unverifiable checkpoints (other key, other origin), witness ahead, context end; the sequence of calls (arguments, order) and the result compared with the model given the answers actually received; monitors check each Update against the latest checkpoint reported in the same attempt',
      assumptions=['backoff timing (cenkalti/backoff) is real time, not modelled: the model is a retry loop over the attempts that happened'],
      exhaustive=True)
+
+prop('C15',
+     modules=['WitnessVerif.Props.C15'],
+     scenarios=lambda tier: [sc('dist')],
+     diverge={'DS': None},
+     nontrivial_line=lambda k, line: k == 'DS',
+     rule='rest.Distributor.DistributeOnce against a stub witness whose answer per log is one of {valid, missing, wrong log key, no witness signature, invalid witness signature, corrupted, another log\'s checkpoint, two witness signatures} and a stub distributor service answering {200, 404, 500, connection reset, 307 redirect, 302 redirect, 201}: the 56 combinations enumerated for the first cases, then random draws over 1..6 logs and witness key names with characters that need escaping; requests received (path, method, body digest, redirect target) and the returned error compared with the model',
+     assumptions=['net/http client behaviour on redirects is observed, not modelled beyond method preservation'])
